@@ -24,7 +24,7 @@ BOUNDS = {
     "quick": "values: all reals; pool of 16 value objects (Scalar simple/derived/empty/unknown-caption, Array over list/tuple/numpy simple and derived, "
              "FixedArray list/numpy, FractionScalar with and without fraction); every unary operation on every member and every binary operator on a "
              "seeded sample of 260 ordered pairs; one step",
-    "thorough": "same pool; every binary operator on every ordered pair; plus 600 seeded two-step chains",
+    "thorough": "same pool; every binary operator on every ordered pair; plus 6000 seeded two-step chains",
 }
 ASSUMPTIONS = ["A-FP", "A-NP incl. in-place ufunc semantics (out=) of the object-array model", "formatting runs with its output discarded (C-level %g on the NaN payload)",
                "proxies pickle by reference, so the real __reduce__ of Scalar/FixedArray/Quantity is what is exercised"]
@@ -51,7 +51,7 @@ def items(tier, seed):
                 out.append({"op": o, "a": a, "b": b})
     else:
         out += [{"op": o, "a": a, "b": b} for (a, b) in pairs for o in BINOPS]
-        for _ in range(600):
+        for _ in range(6000):
             a, b, c = rng.choice(POOL), rng.choice(POOL), rng.choice(POOL)
             out.append({"op": rng.choice(BINOPS), "a": a, "b": b, "then": {"op": rng.choice(BINOPS + UNOPS), "b": c}})
     out.append({"op": "mul", "a": "s_m", "b": "s_cm_depth", "canary": True})
